@@ -389,6 +389,11 @@ func (c *Constraint) matchesPermanodeTypes() []string {
 			}
 			return sb
 		case "or":
+			if len(sa) == 0 || len(sb) == 0 {
+				// One side can match permanodes of any node type (or
+				// of none), so the union is not restricted to types.
+				return nil
+			}
 			return append(sa, sb...)
 		}
 	}
